@@ -36,7 +36,8 @@ type RunCase struct {
 	UCI      *UCIScenario    `json:"uci,omitempty"`
 	UCICfg   *UCIGenCfg      `json:"uci_cfg,omitempty"` // generation mode only: the policy configuration
 	C14      []c14Case       `json:"c14,omitempty"`
-	C14Real  bool            `json:"c14_real,omitempty"` // C14 cases run against the real search (parked inside its tree)
+	C14Real  bool            `json:"c14_real,omitempty"`  // C14 cases run against the real search (parked inside its tree)
+	UCITwins int             `json:"uci_twins,omitempty"` // C08: replay the session on this many further drivers sharing the bubble
 }
 
 // RunResult is what one run produced.
@@ -110,6 +111,9 @@ func legFor(property string, rng *rand.Rand, tier string) string {
 		}
 		return "uci-real"
 	case "C08":
+		if x < 22 {
+			return "uci-twin"
+		}
 		return "search"
 	case "C13":
 		switch {
@@ -144,8 +148,14 @@ func generateCase(property string, tier string, run, seed uint64) (*RunCase, *ra
 		rc.Search = genSearchScenario(rng, "c07game", thorough)
 	case "search-tiny":
 		rc.Search = genSearchScenario(rng, "tiny", thorough)
-	case "uci-stub", "uci-real", "uci-sweep":
+	case "uci-stub", "uci-real", "uci-sweep", "uci-twin":
 		cfg := drawUCIGenCfg(rng, rc.Leg == "uci-stub")
+		if rc.Leg == "uci-twin" {
+			cfg.NoClock, cfg.Timed, cfg.PStall = true, false, 0
+			cfg.PQuitMid, cfg.PEOFMid = 0, 0
+			cfg.Extremes = false
+			rc.UCITwins = 1 + rng.IntN(2)
+		}
 		switch property {
 		case "C06":
 			cfg.Extremes = rng.IntN(2) == 0
